@@ -75,6 +75,19 @@ def attempt(position, words, scratch, tag):
     req, g, lib = pipeline.build_and_generate(api, sub)
     if not g.ok:
         return "generation-fails", g.failure(), None, api, None
+    if position == "rpc":
+        # gapic_metadata.json is part of the surface: the library method it names for an RPC is the one the clients offer
+        api.info["metadata_methods"] = {}
+        for fl in g.response.file:
+            if fl.name.endswith("gapic_metadata.json"):
+                try:
+                    md = json.loads(fl.content)
+                    for sname, sv in md.get("services", {}).items():
+                        for kind, cl in sv.get("clients", {}).items():
+                            for rpc, ent in cl.get("rpcs", {}).items():
+                                api.info["metadata_methods"].setdefault(rpc, {})[kind] = list(ent.get("methods", []))
+                except ValueError:
+                    api.info["metadata_methods"] = None
     script = {"root_pkg": apigen.lib_root(api.info, api.options), "position": position, "items": api.info["items"],
               "reserved": sorted(reserved_set())}
     ev, rc, err = pipeline.run_runner("checks.c12", script, lib, timeout=600)
@@ -287,6 +300,13 @@ def judge(position, item, o, model, api):
         want = sn + "_" if keyword.iskeyword(sn) else sn
         if o.get("method") != want:
             bad("method-name", f"client offers {o.get('method')!r}, expected {want!r}")
+        mm = (api.info.get("metadata_methods") or {}).get(item["rpc"])
+        if not mm:
+            bad("metadata-entry-missing", f"gapic_metadata.json has no entry for rpc {item['rpc']!r}")
+        else:
+            for kind, methods in sorted(mm.items()):
+                if methods != [want]:
+                    bad("metadata-method-name", f"gapic_metadata.json ({kind}) names {methods!r} for rpc {item['rpc']!r}, the clients offer {want!r}")
         if gm.text != "t1":
             bad("wire-field", f"server decoded {str(gm)[:160]!r}")
         if path != f"/v1/anchors/a:rpc{item['i']}":
